@@ -68,9 +68,12 @@ class Scenario:
     the scenario proper then starts from whatever that child left behind (its
     left-over temporary file in particular): the crash-leftover sequence."""
 
-    def __init__(self, name, writer, mode, sizes, tmp, pre=None):
+    def __init__(self, name, writer, mode, sizes, tmp, pre=None, faults=None):
         self.name, self.writer, self.mode, self.sizes, self.tmp = name, writer, mode, sizes, tmp
         self.pre = pre
+        # faults: per save (parallel to the saves, i.e. to sizes without the
+        # set-up entry of the leases writer) the failure injected into it
+        self.faults = faults
         self.events = None     # model events (dicts)
         self.src = None        # per event: strace line (str) or marker
         self.rows = None       # harness result rows
@@ -80,7 +83,32 @@ class Scenario:
         d = {"name": self.name, "writer": self.writer, "mode": self.mode, "sizes": self.sizes, "tmp": self.tmp}
         if self.pre is not None:
             d["pre"] = self.pre
+        if self.faults is not None:
+            d["faults"] = self.faults
         return d
+
+
+def clear_immutable(top):
+    """Safety net: a child that died inside an immdir/immdst fault would leave
+    an immutable file behind, which nothing could remove."""
+    import fcntl
+    import struct
+    for dp, dns, fns in os.walk(top):
+        for q in [dp] + [os.path.join(dp, f) for f in fns]:
+            try:
+                fd = os.open(q, os.O_RDONLY)
+            except OSError:
+                continue
+            try:
+                buf = bytearray(8)
+                fcntl.ioctl(fd, 0x80086601, buf)
+                fl = struct.unpack("l", buf)[0]
+                if fl & 0x10:
+                    fcntl.ioctl(fd, 0x40086602, struct.pack("l", fl & ~0x10))
+            except OSError:
+                pass
+            finally:
+                os.close(fd)
 
 
 def run_child(ctx, bins, sc, tag=""):
@@ -110,10 +138,10 @@ def run_child(ctx, bins, sc, tag=""):
     binary = bins[PKG[sc.writer]]
     args = ["-test.run", "^TestZZVerifC14Child$", "-test.count=1", "-test.timeout=10m"]
 
-    def spec(mode, sizes, resume, gen):
+    def spec(mode, sizes, resume, gen, faults=None):
         return json.dumps({"mode": mode, "writer": sc.writer, "root": root, "out": out, "sizes": sizes,
                            "seed": ctx.seed, "maxreads": 50000 if ctx.quick else 150000,
-                           "resume": resume, "gen": gen})
+                           "resume": resume, "gen": gen, "faults": faults or []})
 
     pre_files, pre_dirs = [], []
     try:
@@ -123,8 +151,14 @@ def run_child(ctx, bins, sc, tag=""):
             # left behind) the attempt is repeated on a clean root.
             for attempt in range(6):
                 env["ZZC14_SPEC"] = spec("crash", sc.pre, False, 0)
+                # fsync and rename are slowed down (strace delay injection) so
+                # that the window "written, not yet renamed" is wide enough for
+                # the child's watcher even on a heavily loaded machine.
+                slow = "fsync,fdatasync,rename,renameat,renameat2"
+                crash_cmd = ["strace", "-f", "-o", "/dev/null", "-e", "trace=" + slow,
+                             "-e", "inject=%s:delay_enter=40000" % slow, binary] + args
                 try:
-                    p = subprocess.run([binary] + args, cwd=rundir, env=env, capture_output=True, text=True, timeout=300)
+                    p = subprocess.run(crash_cmd, cwd=rundir, env=env, capture_output=True, text=True, timeout=300)
                 except subprocess.TimeoutExpired:
                     raise vlib.Inconclusive("crash child timeout in scenario %s" % sc.name)
                 pre_files, pre_dirs = [], []
@@ -146,7 +180,7 @@ def run_child(ctx, bins, sc, tag=""):
                     os.unlink(out)
             else:
                 raise vlib.Inconclusive("scenario %s: the killed child never left anything behind" % sc.name)
-        env["ZZC14_SPEC"] = spec(sc.mode, sc.sizes, sc.pre is not None, 1 if sc.pre is not None else 0)
+        env["ZZC14_SPEC"] = spec(sc.mode, sc.sizes, sc.pre is not None, 1 if sc.pre is not None else 0, sc.faults)
         cmd = [binary] + args
         if sc.mode == "trace":
             cmd = ["strace", "-f", "--seccomp-bpf", "-s", "16", "-o", log, "-e", "trace=" + SYSCALLS] + cmd
@@ -155,6 +189,8 @@ def run_child(ctx, bins, sc, tag=""):
         except subprocess.TimeoutExpired:
             raise vlib.Inconclusive("child timeout in scenario %s" % sc.name)
     finally:
+        if sc.faults:
+            clear_immutable(root)
         if shm:
             shutil.rmtree(shm, ignore_errors=True)
     sc.rows = vlib.read_ndjson(out)
@@ -265,6 +301,24 @@ def ev(name, **kw):
     return d
 
 
+UNREACHABLE = 2000000000   # no file here ever gets that long (TLC integers are 32 bit)
+
+
+def declared(r, k):
+    """The size of version k as declared to the model.  If the harness found
+    the complete version k at the path after the save: its length.  If the save
+    was made to fail by cutting the download: the length of the document the
+    server intended to send.  Otherwise (the save failed under an injected
+    fault, or what it installed is not the document it was asked to save)
+    there is no complete version k: an unreachable size, so that NOTHING the
+    path holds can pass for "the complete new version"."""
+    if r.get("is") == k:
+        return r["n"]
+    if r.get("noop") and r.get("decl", -1) >= 0:
+        return r["decl"]
+    return UNREACHABLE
+
+
 def to_events(sc, log):
     """Convert the system-call log of a scenario into model events."""
     calls = parse_strace(log)
@@ -281,6 +335,7 @@ def to_events(sc, log):
     done = False
     exdev_dst = []
     ineffective = []
+    moved = {}   # new real location of a moved directory -> its logical name
 
     def relevant(p):
         return p.startswith(root + "/") or p.startswith(tmpdir + "/")
@@ -303,7 +358,7 @@ def to_events(sc, log):
         events.append(ev("close", fd=fd))
         src.append(note)
 
-    def resolve(dirfd, p):
+    def resolve(dirfd, p, raw=False):
         if not os.path.isabs(p):
             if dirfd == "AT_FDCWD":
                 p = os.path.join(cwd, p)
@@ -315,7 +370,15 @@ def to_events(sc, log):
                 if base is None:
                     return None
                 p = os.path.join(base, p)
-        return os.path.normpath(p)
+        p = os.path.normpath(p)
+        if raw:
+            return p
+        for new, old in moved.items():
+            if p == new or p.startswith(new + "/"):
+                return old + p[len(new):]
+            if p == old or p.startswith(old + "/"):
+                return "/zzc14-moved-away" + p   # the old name is vacant now
+        return p
 
     def emit(e, line):
         events.append(e)
@@ -354,7 +417,7 @@ def to_events(sc, log):
                     r = ends.get(k)
                     if r is None:
                         bad("no result row for save %d" % k, line)
-                    n = max(r.get("decl", 0), 0)
+                    n = declared(r, k)
                     if not r.get("ok"):
                         ineffective.append(k)
                     emit(ev("begin", id=k, n=n), line)
@@ -458,11 +521,23 @@ def to_events(sc, log):
             continue
         if name in ("rename", "renameat", "renameat2"):
             if name == "rename":
-                pa, pb = resolve("AT_FDCWD", unq(a[0])), resolve("AT_FDCWD", unq(a[1]))
-                fl = ""
+                ra, rb, fl = ("AT_FDCWD", unq(a[0])), ("AT_FDCWD", unq(a[1])), ""
             else:
-                pa, pb = resolve(a[0], unq(a[1])), resolve(a[2], unq(a[3]))
-                fl = a[4] if len(a) > 4 else ""
+                ra, rb, fl = (a[0], unq(a[1])), (a[2], unq(a[3])), a[4] if len(a) > 4 else ""
+            rpa, rpb = resolve(*ra, raw=True), resolve(*rb, raw=True)
+            if ok and rpa is not None and rpb is not None and (rpa in moved or rpa in dirs):
+                # A directory is moved (the harness's "nodir" fault moves the
+                # destination's directory away and back).  The model's path
+                # names are logical: files keep their names, real paths under
+                # the new location are mapped back (resolve).
+                if rpa in moved and moved[rpa] == rpb:
+                    del moved[rpa]
+                elif rpa in dirs and not moved and relevant(rpa) and relevant(rpb) and rpb not in dirs:
+                    moved[rpb] = rpa
+                elif relevant(rpa) or relevant(rpb):
+                    bad("directory rename inside the watched tree", line)
+                continue
+            pa, pb = resolve(*ra), resolve(*rb)
             if pa is None or pb is None:
                 continue
             if not ok:
@@ -471,10 +546,6 @@ def to_events(sc, log):
                 continue
             if "RENAME_EXCHANGE" in fl:
                 bad("RENAME_EXCHANGE is not modelled", line)
-            if pa in dirs:
-                if relevant(pa) or relevant(pb):
-                    bad("directory rename inside the watched tree", line)
-                continue
             if relevant(pa) and relevant(pb):
                 emit(ev("rename", p=P(pa), q=P(pb)), line)
             elif relevant(pa):
@@ -531,7 +602,7 @@ def poll_events(sc):
     """Events of a poll-mode run (no system calls: the save-level part of the
     model only)."""
     events, src = [ev("reset")], ["reset %s" % sc.name]
-    sizes = {r["id"]: max(r.get("decl", 0), 0) for r in sc.rows if r.get("ev") == "end"}
+    sizes = {r["id"]: declared(r, r["id"]) for r in sc.rows if r.get("ev") == "end"}
     oks = {r["id"] for r in sc.rows if r.get("ev") == "end" and r.get("ok")}
     ineffective = []
     for r in sc.rows:
@@ -607,6 +678,8 @@ def pattern(sc, i, inv):
     if inv == "ReadOK":
         return "reader-saw-neither-old-nor-new"
     if inv == "InstantOK":
+        if e["ev"] == "pend":
+            return "dst-incomplete-after-save"
         if e["ev"] == "open" and e["fl"]["trunc"]:
             return "dst-opened-with-O_TRUNC"
         if e["ev"] in ("write", "ftrunc", "trunc"):
@@ -692,6 +765,34 @@ def plan(ctx):
                      pre=[j(20, 3000), j(100, 900) * KiB]),
         ]
 
+    def faulty(suffix, tmp, n):
+        """Fault sequences: every second save runs under an injected failure
+        (write cut short by RLIMIT_FSIZE after K bytes, directory moved away,
+        directory immutable, destination immutable), each followed by a
+        normal save."""
+        out = []
+        for writer, first, size in (("config", [], lambda: j(0, 1) * j(1, 300000)),
+                                    ("leases", [j(4, 300) * KiB], lambda: rng.choice([1, 1, 1, -2, 0])),
+                                    ("filter", [], lambda: j(3000, 300000))):
+            kinds = ["fsize:%d" % j(0, 3000), "nodir", "immdir", "immdst", "fsize:%d" % (1 << j(0, 11))]
+            rng.shuffle(kinds)
+            kinds = (kinds * 3)[:n]
+            sizes, faults = [size()], [""]
+            if writer == "leases":
+                sizes[0] = 1
+            for kd in kinds:
+                sizes += [size(), size()]
+                faults += [kd, ""]
+            if writer == "leases":
+                sizes = [1 if (f and x == 0) else x for x, f in zip(sizes, faults)]
+            out.append(Scenario("%s-fault%s" % (writer, suffix), writer, "trace", first + sizes, tmp, faults=faults))
+        return out
+
+    def poll_faults(n):
+        """In the poll runs about every 12th save runs under a fault that does
+        not hide the path from the reader."""
+        return [rng.choice(["fsize:%d" % j(0, 3000), "immdir", "immdst"]) if i % 12 == 7 else "" for i in range(n)]
+
     scs = []
     if ctx.quick:
         scs.append(Scenario("filter-a", "filter", "trace",
@@ -704,6 +805,7 @@ def plan(ctx):
         scs.append(Scenario("leases-a", "leases", "trace", [j(0, 300) * KiB, 1, 1, -2, 0, 1], "otherfs"))
         scs.append(Scenario("leases-mig", "leases-migrate", "trace", [j(0, 100000)], rng.choice(["otherfs", "samefs"])))
         scs += leftovers("", ["otherfs", "samefs"])
+        scs += faulty("", rng.choice(["otherfs", "samefs"]), 5)
         npoll = 200
     else:
         scs.append(Scenario("filter-a", "filter", "trace",
@@ -730,11 +832,15 @@ def plan(ctx):
         scs.append(Scenario("leases-c", "leases", "trace", [j(1, 3) * MiB, 1, 0, 1, 1], "samefs"))
         scs.append(Scenario("filter-c", "filter", "trace", [32 * MiB, j(1, 16) * MiB, -32 * MiB, 33 * MiB, 0, 1], "samefs"))
         scs += leftovers("-a", ["otherfs"]) + leftovers("-b", ["samefs"])
+        scs += faulty("-a", "otherfs", 10) + faulty("-b", "samefs", 10)
         npoll = 400
     scs.append(Scenario("poll-filter", "filter", "poll",
-                        [j(20, 300000) * (-1 if i % 9 == 5 else 1) for i in range(npoll)], "otherfs"))
-    scs.append(Scenario("poll-config", "config", "poll", [j(0, 300000) for _ in range(npoll)], "otherfs"))
-    scs.append(Scenario("poll-leases", "leases", "poll", [j(0, 100000)] + [1] * npoll, "otherfs"))
+                        [j(20, 300000) * (-1 if i % 9 == 5 else 1) for i in range(npoll)], "otherfs",
+                        faults=poll_faults(npoll)))
+    scs.append(Scenario("poll-config", "config", "poll", [j(0, 300000) for _ in range(npoll)], "otherfs",
+                        faults=poll_faults(npoll)))
+    scs.append(Scenario("poll-leases", "leases", "poll", [j(4000, 100000)] + [1] * npoll, "otherfs",
+                        faults=poll_faults(npoll)))
     return scs
 
 
@@ -838,7 +944,7 @@ def run(ctx):
         bad_save = sc.info["ineffective"]
         if not firsts and not bad_save:
             continue
-        again = Scenario(sc.name, sc.writer, sc.mode, sc.sizes, sc.tmp, sc.pre)
+        again = Scenario(sc.name, sc.writer, sc.mode, sc.sizes, sc.tmp, sc.pre, sc.faults)
         execute(ctx, bins, again, "-again")
         ares, _ = validate(ctx, [again], "again-" + sc.name)
         for i, inv in firsts:
@@ -871,6 +977,17 @@ def run(ctx):
     else:
         cov_unclear = []
 
+    # What the injected faults did: per class [saves that failed and left the
+    # previous version, saves that went through, fault could not be produced].
+    fstat = {}
+    for sc in scs:
+        for r in sc.rows:
+            if r.get("ev") == "end" and r.get("fault"):
+                st = fstat.setdefault(r["fault"].split(":")[0], [0, 0, 0])
+                st[2 if not r.get("faulted") else (0 if r.get("noop") else 1)] += 1
+    for cls in ("fsize", "nodir"):
+        if fstat.get(cls, [0])[0] == 0 and not ctx.violations and not ctx.known_hits:
+            raise vlib.Inconclusive("vacuous: no save failed under the injected fault %s (%s)" % (cls, fstat))
     tr = [sc for sc in scs if sc.mode == "trace"]
     if saves == 0 or reads == 0 or not tr:
         raise vlib.Inconclusive("vacuous: %d saves, %d reads" % (saves, reads))
@@ -897,7 +1014,7 @@ def run(ctx):
                            sizes=sc.sizes if len(sc.sizes) <= 30 else
                            {"count": len(sc.sizes), "min": min(sc.sizes), "max": max(sc.sizes), "first": sc.sizes[:8]})
                       for sc in scs],
-        "binding_demo": demo, "unclear": cov_unclear,
+        "binding_demo": demo, "unclear": cov_unclear, "fault_saves_failed_passed_notapplied": fstat,
         "exhaustive": False,
         "samples": samples,
     }
@@ -912,7 +1029,7 @@ def run(ctx):
 def replay(ctx, path):
     rec = json.load(open(path))["record"]
     d = rec["scenario"]
-    sc = Scenario(d["name"], d["writer"], d["mode"], d["sizes"], d["tmp"], d.get("pre"))
+    sc = Scenario(d["name"], d["writer"], d["mode"], d["sizes"], d["tmp"], d.get("pre"), d.get("faults"))
     bins = {PKG[sc.writer]: build(ctx, PKG[sc.writer])}
     execute(ctx, bins, sc)
     res, _ = validate(ctx, [sc], "replay")
